@@ -346,6 +346,9 @@ def build_jobs():
                      "new": tree, "id": "order/%s" % label.replace(" ", "-"), "jk": "order"})
     for host in ("dev-a", "dev-b"):
         jobs.append({"kind": "e2e", "vendor": "huawei", "model": "Huawei", "device": host, "id": "e2e/patch/%s" % host, "jk": "e2e-patch"})
+    for host in ("dev-spine", "dev-leaf"):
+        jobs.append({"kind": "e2e", "vendor": "nexus", "model": "Cisco Nexus 9508", "device": host, "fabric": "tags",
+                     "id": "e2e/patch/%s" % host, "jk": "e2e-patch-tags"})
     for sj in SYNTH_JOBS:
         vendor, text = SYNTH[sj["text"]]
         j = {"kind": "synth", "vendor": vendor, "model": HW_MODELS[vendor], "rb_text": text, "old": sj["old"], "new": sj["new"],
@@ -481,14 +484,27 @@ E2E_FABRIC = [
      "old": [["snmp-agent community read y", []], ["ntp-service unicast-server 2.2.2.2", []], ["sysname b", []]],
      "gens": [([["sysname b", []]], False)], "filter_acl": "ntp-service ~\n"},
 ]
+# two devices of ONE hardware model that differ in a tag only (the implicit defaults of a Nexus 9500 depend on the tag
+# spine1): what is computed per hardware model must not be reused for another device of that model
+E2E_FABRIC_TAGS = [
+    {"hostname": "dev-spine", "model": "Cisco Nexus 9508", "tags": ["spine1"],
+     "old": [["interface port-channel10", []], ["interface mgmt0", []]],
+     "gens": [([["interface port-channel10", [["no shutdown", []]]], ["interface mgmt0", [["no shutdown", []]]]], False)]},
+    {"hostname": "dev-leaf", "model": "Cisco Nexus 9508", "tags": [],
+     "old": [["interface port-channel10", []], ["interface mgmt0", []]],
+     "gens": [([["interface port-channel10", [["no shutdown", []]]], ["interface mgmt0", [["no shutdown", []]]]], False)]},
+]
 _FABRIC = []
+_FABRICS = {}
 
 
 def run_e2e_job(job):
     from mc import e2e
-    if not _FABRIC:
-        _FABRIC.append(e2e.Fabric(E2E_FABRIC))      # lives as long as the process, like a pool worker's arguments
-    fab = _FABRIC[0]
+    which = job.get("fabric", "main")
+    if which not in _FABRICS:
+        # lives as long as the process, like a pool worker's arguments
+        _FABRICS[which] = e2e.Fabric(E2E_FABRIC if which == "main" else E2E_FABRIC_TAGS)
+    fab = _FABRICS[which]
     dev_id = next(i for i, d in fab.devs.items() if d.hostname == job["device"])
     res = {"exception": None}
     try:
